@@ -748,8 +748,8 @@ fn text(rng: &mut Rng) -> String {
 /// names: mostly regular, some with white space, delimiters, `#`, controls, non-ASCII, empty
 /// (name operands are escaped since the repair; every name must read back unchanged)
 fn name(rng: &mut Rng) -> String {
-    // HOSTILE_NAMES is switched on once the operand-escaping repair is in /repo
-    const HOSTILE_NAMES: bool = false;
+    // hostile names are generated since the operand-escaping repair (/repo 40e57719)
+    const HOSTILE_NAMES: bool = true;
     let pool: &[&str] = if HOSTILE_NAMES {
         &[
             "Im1", "F1", "Gs.1", "CS0", "Sh-1", "P_0", "A+B", "a*b", "x@y", "Ré", "名", "N!$&'^`|~", "Z", "My Image", "A#42",
